@@ -83,7 +83,8 @@ Definition hash_incr (now : Z) (key field : bytes) (delta : Z) : M Z :=
         match value_int cur with
         | None => fail EValueType
         | Some n =>
-            let nv := wrap64 (n + delta) in
+            if negb (in_int64 (n + delta)) then fail EValueType else
+            let nv := n + delta in
             hash_set_raw now key field (AInt nv) ;;; ret nv
         end
     | Err e => fail e
